@@ -235,6 +235,10 @@ def all_runs(tier, focus):
         if special in extras:
             extras.remove(special)
     runs = list(itertools.product(inputs, switches, maxwarns, outs, extras))
+    if focus == 'maxwarn':
+        # warnings that come from the force field itself (one per link match / per residue of a block)
+        runs += [('clean', 'none', mw, 'x', 'ffwarn') for mw in ('absent', '3', '4', 'model:3', 'model')]
+        runs += [('clean', 'none', mw, 'x', 'blockwarn') for mw in ('absent', '4', '5', 'model:4', 'model')]
     if focus != 'maxwarn':
         ffw = ['absent', '1', '3', '4', '5', 'model', 'model:3', 'other-type', 'general']
         runs += [('clean', 'none', mw, 'x+o', 'ffwarn') for mw in ffw] + [('alt1', 'scfix', mw, 'x', 'ffwarn') for mw in ffw[:6]]
